@@ -150,6 +150,93 @@ func genMathextRef(gen *vlib.G) {
 			}
 		})
 	}
+	// negative non-integer q (documented for integer x only): terms change sign when k+q crosses 0
+	// for odd x; and large positive q up to the asymptotic switch at 1e8
+	for xi := 2; xi <= 9; xi++ {
+		x := float64(xi)
+		sfCase(gen, fmt.Sprintf("Zeta negative q and large q, integer x=%d", xi), func(r *rep, e *sfErr) {
+			const N = 20000
+			direct := func(q float64) (s, sabs float64) {
+				c := 0.0
+				for k := N - 1; k >= 0; k-- {
+					t := math.Pow(float64(k)+q, -x)
+					sabs += math.Abs(t)
+					y := t - c
+					u := s + y
+					c = (u - s) - y
+					s = u
+				}
+				s += math.Pow(float64(N)+q-0.5, 1-x) / (x - 1)
+				return
+			}
+			qs := []float64{-0.5, -0.25, -0.75, -1.5, -2.5, -3.75, -4.5, -7.3, -8.5, -9.5, -10.25, -11.9, -12.5, -0.001, -1e-3 - 5, 1e4, 1e6, 0.99e8}
+			for _, q := range qs {
+				arg := fmt.Sprintf("x=%d q=%s", xi, g(q))
+				var got float64
+				if pv := catch(func() { got = mathext.Zeta(x, q) }); pv != nil {
+					r.fail("Zeta-panic", arg, "%v", pv)
+					continue
+				}
+				want, sabs := direct(q)
+				tol := 1e-10*math.Abs(want) + 1e-13*sabs
+				d := math.Abs(got - want)
+				e.see(d/tol, arg)
+				if !(d <= tol) {
+					r.fail("Zeta=defining series", arg, "Zeta=%v direct sum=%v", got, want)
+				}
+				// recurrence Zeta(x,q) = q^-x + Zeta(x,q+1), chained until q+1 > 0
+				if q < 1e3 {
+					nx := mathext.Zeta(x, q+1)
+					t := math.Pow(q, -x)
+					tolr := 1e-12 * (math.Abs(got) + math.Abs(t) + math.Abs(nx))
+					d := math.Abs(got - (t + nx))
+					e.see(d/tolr, arg)
+					if !(d <= tolr) {
+						r.fail("Zeta-recurrence", arg, "Zeta(x,q)=%v q^-x+Zeta(x,q+1)=%v", got, t+nx)
+					}
+				}
+			}
+			// documented panics: non-positive integer q; negative q with non-integer x
+			for _, bad := range [][2]float64{{x, 0}, {x, -3}, {x + 0.5, -2.5}} {
+				if catch(func() { mathext.Zeta(bad[0], bad[1]) }) == nil {
+					r.fail("Zeta-domain", fmt.Sprint(bad), "documented panic did not happen")
+				}
+			}
+		})
+	}
+	// GammaIncReg/GammaIncRegComp against the integral of the gamma density, with a sweep through the
+	// band 20 < a < 200, |x-a|/a < 0.3 of the uniform asymptotic expansion (and a > 200, 4.5/sqrt(a))
+	for _, a := range []float64{0.5, 1, 2.5, 19.9, 20.1, 25, 50, 100, 150, 199, 201, 500, 1000} {
+		a := a
+		sfCase(gen, fmt.Sprintf("GammaIncReg vs integral a=%g", a), func(r *rep, e *sfErr) {
+			lg, _ := math.Lgamma(a)
+			dens := func(t float64) float64 { return math.Exp((a-1)*math.Log(t) - t - lg) }
+			var xs []float64
+			for dlt := -0.35; dlt <= 0.3501; dlt += 0.05 {
+				xs = append(xs, a*(1+dlt))
+			}
+			xs = append(xs, a*(1-4.4/math.Sqrt(a)), a*(1-4.6/math.Sqrt(a)), a*(1+4.4/math.Sqrt(a)), a*(1+4.6/math.Sqrt(a)), a/4, a*3, 0.5, 1.05)
+			for _, x := range xs {
+				if !(x > 0) {
+					continue
+				}
+				arg := fmt.Sprintf("a=%g x=%s", a, g(x))
+				p := glAdaptive(dens, 0, x, 1e-15, 0, math.Inf(1))
+				hi := math.Max(x, a) + 60*math.Sqrt(a) + 60
+				q := glAdaptive(dens, x, hi, 1e-15)
+				for i, pr := range [][2]float64{{mathext.GammaIncReg(a, x), p}, {mathext.GammaIncRegComp(a, x), q}} {
+					if pr[1] < 1e-200 {
+						continue
+					}
+					d := relErr(pr[0], pr[1])
+					e.see(d/1e-10, arg)
+					if !(d <= 1e-10) {
+						r.fail([]string{"GammaIncReg=integral", "GammaIncRegComp=integral"}[i], arg, "got %v integral %v (rel %g)", pr[0], pr[1], d)
+					}
+				}
+			}
+		})
+	}
 	sfCase(gen, "Carlson RF RD vs defining integrals", func(r *rep, e *sfErr) {
 		vals := []float64{0, 0.01, 0.5, 2, 1e3}
 		for _, x := range vals {
